@@ -1224,7 +1224,8 @@ fn write_hover_escape_string<W: Write>(s: &str, w: &mut W) -> fmt::Result {
             '\n' => w.write_str("\\n")?,
             '\r' => w.write_str("\\r")?,
             '\t' => w.write_str("\\t")?,
-            '\u{1b}' => w.write_str("\\27")?,
+            // fixed-width decimal escape: `\27` followed by a digit would read back as another escape
+            '\u{1b}' => w.write_str("\\027")?,
             ch if ch.is_control() => {
                 let code = ch as u32;
                 if code <= 0xFF {
@@ -1315,5 +1316,14 @@ mod tests {
         assert_eq!(ws.humanize_type_detailed(ty), "(string|integer)[]");
         let ty = ws.ty("(string|integer|nil)[]");
         assert_eq!(ws.humanize_type_detailed(ty), "((string|integer)?)[]");
+    }
+
+    #[test]
+    fn test_escape_followed_by_digit_round_trips() {
+        let mut ws = VirtualWorkspace::new();
+        let ty = ws.ty(r#""\x1B1""#);
+        let rendered = ws.humanize_type_detailed(ty.clone());
+        assert_eq!(rendered, r#""\0271""#);
+        assert_eq!(ws.ty(&rendered), ty);
     }
 }
